@@ -86,8 +86,26 @@ prop('C18', level='proof', design_ref='DESIGN.md section 6 (C18)',
      not_decided=['_get_to_file (file truncation per attempt) and the batch processor of _send_vector are not under contract yet'],
      assumptions=[])
 
-for _pid in ['C01', 'C02', 'C03', 'C04', 'C05', 'C07', 'C08', 'C09', 'C10', 'C11', 'C13', 'C14', 'C15',
-             ]:
+prop('C15', level='other', design_ref='DESIGN.md section 6 (C15)',
+     technique='deductive verification of the undo-window functions of DB (VCs from real source, z3) + bounded native '
+               'scenarios for the clause inside advance_block/backup_block',
+     text='min_undo_height, undo_key, read_undo_info and clear_excess_undo_info are proved against the window formula for '
+          'all heights and limits; the undo clause of advance_block and the reorg itself are exercised by a bounded stand-in.',
+     note='Trusted: T-LDB (iterator order, atomic batches), T-STRUCT (be32 order-preserving). Bounded: generated chains, '
+          'limits 1..50, restarts, non-decreasing daemon heights.',
+     explanation='Window formula proved on the DB functions; advance_block clause bounded (labelled).',
+     bounded=[{'obligation': 'index.c15.bounded', 'driver': 'index_scenario.py', 'request': {'mode': 'c15', 'rounds': 12},
+               'what': 'undo rows exist for every block of the window after catch-up (all sync phases, restarts), older '
+                       'rows are removed on start-up, a reorg of depth = limit succeeds',
+               'bound': '12 (thorough: 72) generated chains of 6-12 blocks, reorg limits {1,2,3,5,50}, random flush '
+                        'schedules, one restart, non-decreasing daemon heights'},
+              {'obligation': 'index.c15.falling-daemon-height', 'driver': 'index_scenario.py',
+               'request': {'mode': 'c15-falling', 'rounds': 3}, 'expect_kf': 'KF-C15-1',
+               'what': 'probe of the listed known finding: falling daemon-height trajectories', 'bound': '3 scenarios'}],
+     not_decided=['the undo clause inside advance_block is not under deductive contract yet'],
+     assumptions=[])
+
+for _pid in ['C01', 'C02', 'C03', 'C04', 'C05', 'C07', 'C08', 'C09', 'C10', 'C11', 'C13', 'C14']:
     na(_pid, 'contracts for this property are not yet built in this round (planned: DESIGN.md section 6); nothing is claimed')
 na('C06', 'quantifies over cancellation instants of an asyncio task while worker-thread jobs keep running: not '
           'expressible as pre/postconditions of functions in a sequential or cooperative model (DESIGN.md section 6, C06)')
